@@ -10,12 +10,14 @@ package leveldb
 // real goleveldb database in a temporary directory.
 
 //verif:property C20
-//verif:bound history of exactly 0..2 write operations (quick) / 3 (thorough), each one of: Set(k,v), Delete(k), batch {Set|Delete ; Set|Delete} + Write; keys of 0..2 arbitrary bytes, values nil or 0..1 arbitrary bytes
-//verif:bound reads after the history: Get of an arbitrary key; Iterator() and IteratorPrefix(p) drained to the end (p of 0..2 arbitrary bytes); IteratorPrefixWithStart(p, start, false) with start nil or 0..2 arbitrary bytes: Key()/Value() right after creation (as store_checkpoint.go reads them), then drained to the end
+//verif:bound VerifC20Reads: history of exactly 0, 1 or 2 writes (thorough: 3), as single calls or as one batch of two writes + Write (thorough: 3 single calls for every read; single+batch and batch+single for the Iterator() read); every write is Delete(k), Set(k, nil) or Set(k, v); keys of 0..2 arbitrary bytes, v of 0..1 arbitrary bytes; then one read on both backends: Get of an arbitrary key of 0..2 bytes, Iterator() drained to the end, or IteratorPrefix(p) (p of 0..2 arbitrary bytes) drained to the end
+//verif:bound VerifC20Start: IteratorPrefixWithStart(p, start, false), p of 0..2 arbitrary bytes, start nil or exactly 0, 1, 2 arbitrary bytes: Key()/Value() right after creation (as store_checkpoint.go reads them), then drained to the end; after the empty history, any single write, two Set(k, v) calls with start nil, 0 or 1 byte (quick) / any two writes as two calls or one batch, three Set(k, v) calls with 1-byte values (thorough)
+//verif:bound VerifC20Reverse (isReverse = true; beyond the property statement, own labels reverse-...): as VerifC20Start after the empty history, one write (start nil or 1 byte), two Set(k, v) of 1-byte values with start nil (quick) / any two writes with start nil, two calls with start of 1 byte (thorough)
+//verif:bound VerifC20Alias: Set or batch.Set of a 1-byte key and 1-byte value, then the caller overwrites the value buffer (mode 0), key and value buffers before Write (mode 1) or the key buffer (mode 2) with arbitrary bytes; Get(old key), Get(new key) on both backends
 //verif:assume goleveldb contract (solver side; the native replay links the real goleveldb): the DB is a map from byte strings to byte strings ordered by bytes.Compare; Put/Delete/Batch.Put/Batch.Delete copy their arguments; Write applies the batch records in order; Get returns a fresh non-nil copy or (nil, ErrNotFound)
 //verif:assume goleveldb iterator contract: NewIterator(r) is a snapshot of the keys in [r.Start, r.Limit) (nil Limit: unbounded), initially before the first key; Seek(k) positions at the first key >= k of the snapshot (false and past-the-end if none); Next from before-the-first goes to the first key, from past-the-end stays (false); Last/Prev symmetric, Prev from past-the-end goes to the last key; Key()/Value() are nil when unpositioned, otherwise a buffer owned by the iterator that is overwritten by the next move; no errors (Error() == nil, Put/Delete/Write succeed)
 //verif:assume util.BytesPrefix is executed for real (not stubbed)
-//verif:outside everything inside goleveldb (journal, compaction, on-disk tables, snapshots under concurrent writes, I/O errors -> PanicCrisis); writes interleaved with a live iterator (MemDB iterators read values live, goleveldb iterators are snapshots); SetSync/DeleteSync (same code as Set/Delete in MemDB); Print/Stats; the mutexes (single goroutine); node/node.go backend selection (dbm.NewDB is a table lookup); reverse iteration is not part of the property statement (see VerifC20Reverse)
+//verif:outside everything inside goleveldb (journal, compaction, on-disk tables, snapshots under concurrent writes, I/O errors -> PanicCrisis); writes interleaved with a live iterator (MemDB iterators read values live, goleveldb iterators are snapshots); SetSync/DeleteSync (same code as Set/Delete in MemDB); Print/Stats; the mutexes (single goroutine); node/node.go backend selection (dbm.NewDB is a table lookup); Seek on a dbm.Iterator after its creation; histories of more than 3 writes, keys longer than 2 bytes, values longer than 1 byte
 //verif:override github.com/syndtr/goleveldb/leveldb.OpenFile -> verifC20OpenFile
 //verif:override (*github.com/syndtr/goleveldb/leveldb.DB).Get -> verifC20DBGet
 //verif:override (*github.com/syndtr/goleveldb/leveldb.DB).Put -> verifC20DBPut
@@ -28,11 +30,15 @@ package leveldb
 //verif:override io/ioutil.TempDir -> verifC20TempDir
 //verif:override os.RemoveAll -> verifC20RemoveAll
 //verif:obligation fn=VerifC20Reads args=0,0,0;0,1,0;0,2,0;1,0,0;1,1,0;1,2,0 validate=12
-//verif:obligation fn=VerifC20Reads args=2,0,0;2,1,0;2,2,10;2,2,20;2,2,30;11,0,0;11,1,0;11,2,10;11,2,20;11,2,30
+//verif:obligation fn=VerifC20Reads args=2,0,0;2,1,0;2,2,33;11,0,0;11,1,0;11,2,10;11,2,20;11,2,31;11,2,32;11,2,33
+//verif:obligation fn=VerifC20Reads args=111,0,110;111,0,120;111,0,130;111,0,210;111,0,220;111,0,230;111,0,310;111,0,320;111,0,330;111,1,0;12,1,0;21,1,0;2,2,10;2,2,20;2,2,31;2,2,32 tier=thorough secs=3000 paths=2000000
+//verif:obligation fn=VerifC20Reads args=111,2,111;111,2,112;111,2,113;111,2,121;111,2,122;111,2,123;111,2,131;111,2,132;111,2,133;111,2,211;111,2,212;111,2,213;111,2,221;111,2,222;111,2,223;111,2,231;111,2,232;111,2,233;111,2,311;111,2,312;111,2,313;111,2,321;111,2,322;111,2,323;111,2,331;111,2,332;111,2,333 tier=thorough secs=3000 paths=2000000
 //verif:obligation fn=VerifC20Start args=0,0,-1;0,0,1;1,0,-1;1,0,0;1,0,1;1,0,2 validate=12
-//verif:obligation fn=VerifC20Start args=2,33,-1;2,33,0;2,33,1;2,33,2;11,33,-1;11,33,0;11,33,1;11,33,2
+//verif:obligation fn=VerifC20Start args=11,33,-1;11,33,0;11,33,1
+//verif:obligation fn=VerifC20Start args=2,0,-1;2,0,0;2,0,1;2,0,2;11,0,-1;11,0,0;11,0,1;11,0,2;111,444,-1;111,444,0;111,444,1;111,444,2 tier=thorough secs=3000 paths=2000000
 //verif:obligation fn=VerifC20Reverse args=0,0,-1;1,0,-1;1,0,1 validate=12
-//verif:obligation fn=VerifC20Reverse args=11,33,-1
+//verif:obligation fn=VerifC20Reverse args=11,44,-1
+//verif:obligation fn=VerifC20Reverse args=11,0,-1;2,0,-1;11,0,1 tier=thorough secs=3000 paths=2000000
 //verif:obligation fn=VerifC20Alias args=0;1;2 validate=12
 
 import (
@@ -290,7 +296,8 @@ type verifC20Write struct {
 	v   []byte
 }
 
-// kind: 1 = Delete(k), 2 = Set(k, nil), 3 = Set(k, v) with v of 0..1 bytes, 0 = any of them
+// kind: 1 = Delete(k), 2 = Set(k, nil), 3 = Set(k, v) with v of 0..1 bytes, 0 = any of
+// these three; 4 = Set(k, v) with v of exactly 1 byte (a sub-case of 3)
 func verifC20NewWrite(kind int) verifC20Write {
 	w := verifC20Write{k: verifC20Key("key")}
 	if kind == 0 {
@@ -303,6 +310,8 @@ func verifC20NewWrite(kind int) verifC20Write {
 		w.v = nil
 	case 3:
 		w.v = verifBytes("value", 1)
+	case 4:
+		w.v = verifBytesN("value", 1)
 	}
 	return w
 }
@@ -386,7 +395,12 @@ func verifC20Drain(a, b Iterator, max int, what string) [][]byte {
 		ka, va = append(ka, a.Key()), append(va, a.Value())
 		kb, vb = append(kb, b.Key()), append(vb, b.Value())
 	}
+	verifObserveU64(what+"-yielded", uint64(len(ka)))
 	for i := range ka {
+		verifObserveBytes(what+"-mem-key", ka[i])
+		verifObserveBytes(what+"-ldb-key", kb[i])
+		verifObserveBytes(what+"-mem-value", va[i])
+		verifObserveBytes(what+"-ldb-value", vb[i])
 		verifAssert(bytes.Equal(ka[i], kb[i]), what+"-key-equal")
 		verifAssert(bytes.Equal(va[i], vb[i]), what+"-value-equal")
 	}
